@@ -81,6 +81,7 @@ func RunRule(p *load.Program, r *Rule) (obs []report.Obligation, analysed []stri
 			c.Obs[i].Construct = fmt.Sprintf("%s#%d", k, seen[k])
 		}
 	}
+	applyScopes(r, c.Obs)
 	for k := range c.Analysed {
 		analysed = append(analysed, k)
 	}
